@@ -297,6 +297,8 @@ def f_globals():
 	g.def("bound", "BM_APPEND", "L_INT.append")
 	g.def("bound", "BM_UPDATE", "D_STR.update")
 	g.def("bound", "BM_ADD", "S_INT.add")
+	// bound methods that hold the only reference to their receiver
+	g.def("bound", "BM_SOLE_APPEND", brack("[", g.ints(1+r.Intn(4)), "]")+".append")
 	g.def("list", "FUNCS", "[f_plain, ADD, LAMK, BM_GET, len, str]")
 	sp.src = g.b.String()
 
@@ -373,6 +375,7 @@ def f_globals():
 	call("BM_APPEND", "(1)", "mutator", starlark.Tuple{i(1)})
 	call("BM_UPDATE", "(zz = 1)", "mutator", nil, kw("zz", i(1)))
 	call("BM_ADD", "(12345)", "mutator", starlark.Tuple{i(12345)})
+	call("BM_SOLE_APPEND", "(1)", "mutator", starlark.Tuple{i(1)})
 	return sp
 }
 
